@@ -120,7 +120,17 @@ def specs_from_case(case_specs):
 def check_one(counts, specs, make_counter, do_meta=True):
     expected, unspecified = ref_left(counts, specs)
     total = total_at_or_above(counts)
-    got = ignore_warnings_and_count(make_counter(), specs)
+    counter = make_counter()
+    before = {lvl: dict(d) for lvl, d in counter.counts.items() if d}
+    got = ignore_warnings_and_count(counter, specs)
+    # counting is a question, not an edit: the records of the handler are the same afterwards and asking again (the same
+    # question, or without any allowance) gives the answer the records call for
+    after = {lvl: dict(d) for lvl, d in counter.counts.items() if d}
+    if after != before:
+        raise Violation('counter-modified', 'the records of the counting handler changed: %r -> %r' % (before, after))
+    again = ignore_warnings_and_count(counter, specs)
+    if again != got:
+        raise Violation('second-call-differs', 'left=%r on the first call, %r on the second call with the same handler and allowances' % (got, again))
     if not isinstance(got, int) or isinstance(got, bool):
         raise Violation('type', 'result %r is not an int' % (got,))
     if got < 0:
